@@ -213,6 +213,7 @@ func MustPass(fn *ssa.Function, isM func(ssa.Instruction) bool, isRet func(*ssa.
 func checkC19(c *Ctx, r *Report) {
 	defer collectorOwnsConfigRule(c, r)
 	defer loaderStateRule(c, r)
+	defer keyValueVerbatimRule(c, r)
 	r.Assumption("user-supplied FileLoader functions honour the options they are given")
 	r.Assumption("equality of the accumulated config with a sequence of merges is not decided (value-level)")
 
@@ -743,4 +744,34 @@ func collectorOwnsConfigRule(c *Ctx, r *Report) {
 	if n == 0 {
 		r.Bad("R19j", "cfgutil", "store into Collector.config", "-", "no store into Collector.config found: the constructor no longer sets it")
 	}
+}
+
+// keyValueVerbatimRule (R19k): `-D key=value` is split at the first '=' and nothing else happens to the two parts: the
+// key names the setting as written, the value goes to parse.Value as written, and "only an empty value is ignored"
+// (R19d) is decided on that text. A rewrite in front of the test or the parser (TrimSpace) changes which arguments
+// count as empty — `a.b= ` used to set null over an earlier a.b=1 and is dropped — and which key is set.
+func keyValueVerbatimRule(c *Ctx, r *Report) {
+	r.Rule("R19k", "in NewFlagKeyValue's loader the text given to parse.Value and the key of the setting are pieces of the argument as split (slices / strings.SplitN / IndexByte), not the result of any other strings function", 1)
+	fn := c.Func("flag", "NewFlagKeyValue")
+	n, bad := 0, ""
+	for _, f := range WithAnon(fn) {
+		Instrs(f, false, func(in ssa.Instruction) {
+			ci, ok := in.(ssa.CallInstruction)
+			if !ok {
+				return
+			}
+			g := ci.Common().StaticCallee()
+			if g == nil || g.Pkg == nil || g.Pkg.Pkg.Path() != "strings" {
+				return
+			}
+			n++
+			switch {
+			case strings.HasPrefix(g.Name(), "Split"), strings.HasPrefix(g.Name(), "Index"), g.Name() == "Cut", g.Name() == "Contains", strings.HasPrefix(g.Name(), "Has"):
+			default:
+				bad = "strings." + g.Name() + " at " + c.Pos(ci.Pos())
+			}
+		})
+	}
+	r.Check(bad == "", "R19k", c.FnName(fn), "key and value as split", c.Pos(fn.Pos()), fmt.Sprintf("%d strings call(s), splitting only", n),
+		"the key=value loader rewrites the text of its argument ("+bad+") before the emptiness test and the parser see it: which arguments count as empty, and which key is set, is no longer what a sequence of merges of the same arguments gives")
 }
